@@ -89,13 +89,29 @@ fn class_of(v: &str) -> &'static str {
 
 /// a syntactically valid URI (the builder validates) with reserved characters
 fn gen_url(r: &mut Prng) -> String {
+    // legal URIs that are not in RFC 3986 normal form are values like any other: mixed-case hosts,
+    // dot segments, lower-case or superfluous percent-encodings, empty segments, userinfo, ports,
+    // IPv6 literals, fragments
     let scheme = *r.pick(&["http", "ftp", "file"]);
-    let mut s = format!("{scheme}://host.example/");
-    for _ in 0..r.range(0, 4) {
-        s.push_str(*r.pick(&["a", "b-c", "%20", "~", "'", "(", ")", "!", "*", ";", "=", ",", "$", "+", "@"]));
+    let host = if scheme == "file" && r.chance(1, 2) {
+        ""
+    } else {
+        *r.pick(&["host.example", "Backup.Example.NET", "HOST", "user:pw@host.example:8080", "[2001:DB8::1]", "[2001:db8::1]:830", "192.0.2.1", "ops@Host.Example"])
+    };
+    let mut s = format!("{scheme}://{host}/");
+    for i in 0..r.range(0, 5) {
+        if i > 0 && r.chance(1, 2) {
+            s.push('/');
+        }
+        s.push_str(*r.pick(&[
+            "a", "b-c", "%20", "~", "'", "(", ")", "!", "*", ";", "=", ",", "$", "+", "@", ".", "..", "./", "../", "%7e", "%7E", "%41%42", "%2f", "%2F", "%c3%a9", "r1%2fconfig.xml", "Config.XML", "", ";v=1",
+        ]));
     }
     if r.chance(1, 2) {
-        s.push_str("?a=1&b='2'&c=%3C");
+        s.push_str(*r.pick(&["?a=1&b='2'&c=%3C", "?A=%7e&b=%2f", "?"]));
+    }
+    if r.chance(1, 6) {
+        s.push_str("#Frag%7e");
     }
     s
 }
